@@ -2,6 +2,8 @@ package main
 
 import (
 	"fmt"
+	"go/constant"
+	"go/token"
 	"go/types"
 	"sort"
 	"strings"
@@ -71,7 +73,94 @@ func (ex *Exec) loopEnv(fr *Frame, st *State, h *ssa.BasicBlock, phiVals map[*ss
 			}
 		}
 	}
+	// $n: number of completed iterations, independent of the loop's syntactic form
+	//   range over a slice/array/string : rangeindex + 1
+	//   range over an integer           : the iteration variable
+	//   range over a map                : entries visited
+	//   counting loop (x := c; ...; x++): x - c for the induction variable of the header
+	if _, has := env.vars["$n"]; !has {
+		if v, ok := env.vars["$visited"]; ok {
+			env.vars["$n"] = v
+		}
+	}
+	if _, has := env.vars["$n"]; !has {
+		var cands []Value
+		var condCands []Value
+		for p, v := range phiVals {
+			if p.Block() != h {
+				continue
+			}
+			if _, _, isInt := intBits(p.Type()); !isInt {
+				continue
+			}
+			switch p.Comment {
+			case "rangeindex":
+				cands = []Value{{T: tInt, L: []*Term{Add(v.L[0], Int(1))}}}
+				condCands = cands
+			case "rangeint.iter":
+				cands = []Value{{T: tInt, L: []*Term{v.L[0]}}}
+				condCands = cands
+			}
+			if len(condCands) > 0 {
+				break
+			}
+			start, step := int64(0), false
+			okStart := false
+			for _, e := range p.Edges {
+				switch x := e.(type) {
+				case *ssa.Const:
+					if x.Value != nil && x.Value.Kind() == constant.Int {
+						if c, exact := constant.Int64Val(x.Value); exact {
+							start, okStart = c, true
+						}
+					}
+				case *ssa.BinOp:
+					if x.Op == token.ADD {
+						if c, isC := x.Y.(*ssa.Const); isC && x.X == ssa.Value(p) && c.Value != nil && c.Value.Kind() == constant.Int {
+							if cv, exact := constant.Int64Val(c.Value); exact && cv == 1 {
+								step = true
+							}
+						}
+					}
+				}
+			}
+			if okStart && step && len(p.Edges) == 2 {
+				nv := Value{T: tInt, L: []*Term{Sub(v.L[0], Int(start))}}
+				cands = append(cands, nv)
+				if ifi, isIf := h.Instrs[len(h.Instrs)-1].(*ssa.If); isIf {
+					if b, isB := ifi.Cond.(*ssa.BinOp); isB && (stripConv(b.X) == ssa.Value(p) || stripConv(b.Y) == ssa.Value(p)) {
+						condCands = append(condCands, nv)
+					}
+				}
+			}
+		}
+		switch {
+		case len(condCands) == 1:
+			env.vars["$n"] = condCands[0]
+		case len(cands) == 1:
+			env.vars["$n"] = cands[0]
+		}
+	}
+	if nv, ok := env.vars["$n"]; ok {
+		if _, has := env.vars["$index"]; !has {
+			env.vars["$index"] = Value{T: tInt, L: []*Term{Sub(nv.L[0], Int(1))}}
+		}
+	}
+	ex.applyAliases(env, fr.fn)
 	return env
+}
+
+func stripConv(v ssa.Value) ssa.Value {
+	for {
+		switch x := v.(type) {
+		case *ssa.Convert:
+			v = x.X
+		case *ssa.ChangeType:
+			v = x.X
+		default:
+			return v
+		}
+	}
 }
 
 func (ex *Exec) refValue(fr *Frame, st *State, r *debugRef, phiVals map[*ssa.Phi]Value) (v Value, ok bool) {
@@ -127,6 +216,7 @@ func (ex *Exec) baseEnv(fr *Frame, st *State) *Env {
 	for g, v := range fr.ghostPar {
 		env.vars[g] = v
 	}
+	ex.applyAliases(env, fr.fn)
 	return env
 }
 
